@@ -36,6 +36,8 @@ Grammar (line oriented; '#' starts a comment at line start; '<<<' ... '>>>' deli
     object-bits N
     timeout SECONDS
     expect-unreachable      no canary of the target needs to be reachable (never used to hide things: listed in evidence)
+    plain                   no contract instrumentation at all: the harness (which must end in
+                            __CPROVER_assert(0, "canary.harness.end")) is checked by cbmc with the given unwinding bounds
     kind proof|bounded      bounded queries are reported separately and never counted as proved
 """
 import re, fnmatch, os
@@ -56,7 +58,7 @@ class Query:
         self.replace = []; self.selfstub = False; self.harness = ''; self.unwindset = []
         self.flags = []; self.object_bits = None; self.timeout = None; self.expect_unreachable = False
         self.kind = 'proof'; self.unit = None; self.vars = {}; self.args = None; self.entry = None
-        self.no_enforce = False; self.note = ''; self.pre_unwind = []; self.switch_slice = []; self.no_loop_contracts = False
+        self.no_enforce = False; self.note = ''; self.pre_unwind = []; self.switch_slice = []; self.no_loop_contracts = False; self.plain = False; self.also = []
 
 class UnitSpec:
     def __init__(self, name):
@@ -155,6 +157,8 @@ def parse_file(path):
                 elif key == 'args': cur.args = rest
                 elif key == 'no-enforce': cur.no_enforce = True
                 elif key == 'no-loop-contracts': cur.no_loop_contracts = True
+                elif key == 'plain': cur.plain = True
+                elif key == 'also': cur.also += rest.split()
                 elif key == 'note': cur.note = rest
                 else: raise SpecError('unknown query key %s' % key)
             else:
